@@ -28,7 +28,9 @@ _STEPS = {}
 
 
 def custom_var(rel):
-    return rel['gammadet'] * rel['alpha'] + rel.Lambda
+    # deep on purpose (about 25 calculations): with period 3 the cache is
+    # cleaned many times while this runs
+    return rel['Hamiltonian'] * rel['alpha'] + rel['gammadet'] + rel.Lambda
 
 
 def custom_est(a):
